@@ -10,7 +10,7 @@ Search oracle (Impl vs Spec): never_twice / fresh_in_window re-implemented below
 sets; for live sessions: every application message is delivered at most once, exactly once when
 its datagram was not dropped, replays change nothing, the handshake completes.
 """
-import itertools, json, os
+import itertools, json, os, re
 import vlib
 
 M32 = 1 << 32
@@ -97,13 +97,53 @@ def parse_live_out(out):
     d["fail"] = "HARNESSFAIL" in out
     return d
 
+HS_NAMES = {1: "ClientHello", 2: "ServerHello", 3: "HelloVerifyRequest", 4: "NewSessionTicket", 11: "Certificate", 12: "ServerKeyExchange",
+            13: "CertificateRequest", 14: "ServerHelloDone", 15: "CertificateVerify", 16: "ClientKeyExchange", 20: "Finished", 254: "ChangeCipherSpec"}
+FRAGMENTABLE = (11, 13)          # dtlsWriteCertificate / dtlsWriteCertificateRequest are the only fragmenting writers
+
+def parse_cfg(cfg):
+    f = cfg.split("/")
+    return f[0], (f[1] if len(f) > 1 and f[1] else "c02f"), (f[2] if len(f) > 2 and f[2] else "-")
+
+def parse_sizes(out):
+    """-> (hs, why, [(to, dgram, rectype, hstype|None, epoch, total_bytes)])"""
+    t = out.split()
+    if not t or t[0] != "sizes": return None
+    recs = []
+    for x in t[3:]:
+        to, dgi, r = x.split(":")
+        rt, ht, ep, ln = r.split(".")
+        recs.append((to, int(dgi), int(rt), None if ht == "-" else int(ht), int(ep), int(ln)))
+    return t[1].split("=")[1], t[2].split("=")[1], recs
+
+def msg_code(rec):
+    to, dgi, rt, ht, ep, ln = rec
+    if rt == 20: return 254
+    if rt == 22: return ht if ep == 0 else 20
+    return 1000 + rt
+
+def observed_flights(recs):
+    """merge consecutive datagrams of one sender into a flight: 'C:1 S:3 ...' (sender = the other end of `to`)"""
+    fl = []
+    for r in recs:
+        snd = "C" if r[0] == "S" else "S"
+        if fl and fl[-1][0] == snd: fl[-1][1].append(msg_code(r))
+        else: fl.append((snd, [msg_code(r)]))
+    return " ".join("%s:%s" % (p, ",".join(str(m) for m in ms)) for p, ms in fl)
+
+def oversize(sizes_unfragmented, pmtu):
+    """handshake messages of the unfragmented run that exceed the PMTU and have no fragmenting writer"""
+    if pmtu <= 0: return []
+    return [(("C" if r[0] == "S" else "S"), msg_code(r), r[5]) for r in sizes_unfragmented if r[2] == 22 and msg_code(r) not in FRAGMENTABLE and r[5] > pmtu]
+
+SIZES = {}       # (suite, mode) -> records of the clean unfragmented handshake, filled by run()
+
 def spec_check_live(ck, line, out):
     t = line.split()
     cfg, fates = t[1], ("" if t[2] == "-" else t[2])
     inj = t[3:]
     d = parse_live_out(out)
-    suite = cfg.split("/")[1] if "/" in cfg else "c02f"
-    pmtu = cfg.split("/")[0]
+    pmtu, suite, mode = parse_cfg(cfg)
     nfault = sum(1 for c in fates if c != ".")
     rp = {"harness": "h_dtlswin", "case": line, "observed": out}
     if "hs" not in d or d["fail"]:
@@ -111,9 +151,23 @@ def spec_check_live(ck, line, out):
     ndrop = fates.count("x")
     if d["hs"] != "11":
         where = "with no loss" if ndrop == 0 else "after %d lost datagram(s)" % ndrop
-        ck.spec_violation("live:incomplete:pmtu=%s:suite=%s" % (pmtu, suite),
-                          "DTLS handshake does not complete %s although every later datagram is delivered (schedule %s, suite %s): %s" % (where, fates or "-", suite, out),
+        big = oversize(SIZES.get((suite, mode), []), int(pmtu))
+        if nfault == 0 and not inj and big and re.fullmatch(r"%s[GRS]-\d+/80" % big[0][0], d.get("why", "")):
+            # the peer that has to send the first oversize message stops with internal_error (alert 80) pending
+            snd, code, ln = big[0]
+            ck.spec_violation("live:incomplete:nofault:pmtu=%s:suite=%s:mode=%s:unfragmentable=%s/%d" % (pmtu, suite, mode, HS_NAMES.get(code, str(code)), ln),
+                              "DTLS handshake fails with NO loss at PMTU %s (suite %s, mode %s): the %d-byte %s record is larger than the PMTU and cannot be fragmented "
+                              "(only Certificate and CertificateRequest have a fragmenting writer); the %s stops with internal_error (%s)" % (
+                                  pmtu, suite, mode, ln, HS_NAMES.get(code, str(code)), "server" if snd == "S" else "client", d.get("why")),
+                              dict(rp, expected_by_spec="hs=11", oversize=["%s %s %d" % (a, HS_NAMES.get(b, b), c) for a, b, c in big])); return
+        ck.spec_violation("live:incomplete:pmtu=%s:suite=%s:mode=%s" % (pmtu, suite, mode),
+                          "DTLS handshake does not complete %s although every later datagram is delivered (schedule %s, suite %s, mode %s): %s" % (where, fates or "-", suite, mode, out),
                           dict(rp, expected_by_spec="hs=11")); return
+    if ("r" in mode) != (d.get("res") == "11") and "res" in d:
+        ck.spec_violation("live:wrong-handshake-kind:mode=%s" % mode, "the handshake was %s although the configuration asks for %s (%s)" % (
+                          "resumed" if d.get("res") == "11" else "not resumed", "a resumed one" if "r" in mode else "a full one", out), rp); return
+    if "a" in mode and "r" not in mode and d.get("ca") != "1":
+        ck.spec_violation("live:wrong-handshake-kind:mode=%s" % mode, "client authentication was configured but not performed (%s)" % out, rp); return
     for who, sent in (("S", ["A1", "A2", "A3"]), ("C", ["B1", "B2"])):
         got = [x for x in d.get(who, "-").split(",") if x and x != "-"]
         if len(got) != len(set(got)):
@@ -288,34 +342,75 @@ def run(ck):
     ck.cov["exhaustive"] = True
     ck.cov["exhaustive_cases"] = nexh
 
-    # 3. live sessions (implementation against the spec only)
+    # 3a. flight tables of the model against the flights of clean live handshakes; message sizes
+    suites = ["c02f", "9c", "3c", "2f"] + (["35", "3d", "9d", "c013", "c014", "c027", "c028", "c030"] if thorough else [])
+    fl_cases, fl_impl = [], []
+    rcs, souts, _ = ck.run_lines(h, ["sizes 0/%s/%s" % (su, mo) for su in suites for mo in ("", "a", "r")])
+    souts = [x for x in souts if x.startswith("sizes") or x in ("SESSFAIL", "PRIMEFAIL")]
+    k = 0
+    for su in suites:
+        for mo in ("", "a", "r"):
+            o = souts[k] if k < len(souts) else ""; k += 1
+            ps = parse_sizes(o)
+            fl_cases.append("flights %d %s" % (1 if su.startswith("c0") else 0, mo or "f"))
+            if ps is None or ps[0] != "11":
+                ck.spec_violation("live:incomplete:pmtu=0:suite=%s:mode=%s" % (su, mo or "-"), "clean unfragmented DTLS handshake does not complete (suite %s, mode %s): %s" % (su, mo or "-", o),
+                                  {"harness": "h_dtlswin", "case": "live 0/%s/%s -" % (su, mo), "observed": o, "expected_by_spec": "hs=11"})
+                fl_impl.append("INCOMPLETE"); continue
+            SIZES[(su, mo or "-")] = ps[2]
+            fl_impl.append(observed_flights(ps[2]))
+    rcf, fl_model, _ = ck.run_lines(drv, fl_cases)
+    ck.correspond("flights (model tables: full / client-auth / resumed, with and without ServerKeyExchange) vs flights of a clean live handshake (impl)",
+                  fl_cases, fl_impl, fl_model, nontrivial=lambda c, o: True)
+    # which (message, suite, mode) cannot cross which PMTU: recorded in the evidence
+    table = {}
+    for (su, mo), recs in sorted(SIZES.items()):
+        for r in recs:
+            if r[2] == 22 and msg_code(r) not in FRAGMENTABLE:
+                key = "%s/%s %s" % (su, mo, HS_NAMES.get(msg_code(r), msg_code(r)))
+                table[key] = max(table.get(key, 0), r[5])
+    ck.cov["unfragmentable_message_bytes"] = {k2: v for k2, v in table.items() if v > 256}     # PS_MIN_PMTU = 256
+
+    # 3b. live sessions (implementation against the spec only)
+    F = lambda q, t: t if thorough else q
     nofrag = ["0/9c", "0/3c", "0/2f"]
-    base_cfgs = nofrag + ["0", "600/9c", "300/9c"]
-    for cfg in base_cfgs:
-        live.append("live %s -" % cfg)
-    live += live_fate_cases("0/9c", 10, 3 if thorough else 2)
-    live += live_fate_cases("0/3c", 10, 2 if thorough else 1)
-    live += live_fate_cases("0", 9, 2 if thorough else 1)        # default suite (ECDHE-RSA, server flight > default out buffer)
-    live += live_fate_cases("600/9c", 13, 2 if thorough else 1)  # fragmented Certificate
-    live += live_fate_cases("300/9c", 16, 2 if thorough else 1)
-    # replays: every captured record alone after every datagram position (records not yet captured at
-    # that position are skipped by the harness), and everything captured so far at once, clean schedule
+    #            cfg            max faults   replays of every record at every position
+    plan = [("0/9c",        F(2, 3), True),  ("0/3c",       F(1, 2), thorough), ("0/2f", F(0, 1), False),
+            ("0/c02f",      F(2, 3), True),  ("600/9c",     F(2, 3), True),     ("300/9c", F(1, 2), thorough),
+            ("600/c02f",    F(1, 2), thorough),
+            ("0/9c/a",      F(2, 3), True),  ("0/9c/r",     F(2, 3), True),
+            ("0/c02f/a",    F(1, 2), thorough), ("0/c02f/r", F(1, 2), thorough),
+            ("600/9c/a",    F(2, 3), thorough), ("600/9c/r", F(2, 3), thorough),
+            ("600/c02f/a",  F(1, 2), False), ("600/c02f/r", F(1, 2), False),
+            ("300/9c/a",    F(2, 2), False), ("300/9c/r",   F(2, 3), False), ("300/c02f/r", F(1, 2), False),
+            ("300/c02f",    -1, False)]      # ServerKeyExchange (354 bytes) cannot be fragmented: no-fault schedule only
+    base_cfgs = [c for c, _, _ in plan]
     rcb, outb, _ = ck.run_lines(h, ["live %s -" % c for c in base_cfgs])
-    for cfg, o in zip(base_cfgs, outb):
+    outb = [x for x in outb if x.startswith("hs=") or x in ("SESSFAIL", "PRIMEFAIL")]
+    for (cfg, nf, rep), o in zip(plan, outb):
+        live.append("live %s -" % cfg)
         d = parse_live_out(o)
-        if "nrec" not in d: continue
+        if "nrec" not in d or d.get("hs") != "11": continue        # reported by spec_check_live on the baseline line
         nrec, ndg = int(d["nrec"]), int(d["ndg"])
-        if cfg not in ("0/9c", "0", "600/9c") and not thorough: continue
+        npos = max(1, min(ndg - 5 + 1, 20))                         # handshake datagrams (+ first application datagram)
+        if nf > 0: live += live_fate_cases(cfg, npos, nf)
+        ck.count("positions:%s=%d" % (cfg, npos))
+        if not rep: continue
+        # replays: every captured record alone after every datagram position (records not yet captured
+        # at that position are skipped by the harness), and everything captured so far at once
         for i in range(nrec):
             for j in range(ndg):
                 live.append("live %s - r%d@%d" % (cfg, i, j))
         for j in range(ndg):
             live.append("live %s - %s" % (cfg, " ".join("r%d@%d" % (i, j) for i in range(min(nrec, 60)))))
     rs = ck.rng("live")
-    for _ in range(ck.budget(400, 8000)):
-        n = rs.randint(1, 14)
+    rnd_cfgs = nofrag + ["0/9c/a", "0/9c/r", "0/c02f", "0/c02f/a", "0/c02f/r"]
+    rnd_cfgs_frag = ["600/9c", "600/9c/a", "600/9c/r", "600/c02f/a", "300/3c", "300/9c/a", "300/9c/r", "300/c02f/r"]
+    for _ in range(ck.budget(600, 12000)):
+        cfg = rs.choice(rnd_cfgs + rnd_cfgs_frag) if (thorough or rs.random() < 0.3) else rs.choice(rnd_cfgs)
+        n = rs.randint(1, 30 if cfg.startswith("300") else 20 if cfg.startswith("600") else 14)
         fates = "".join(rs.choice("....x2h") for _ in range(n))
-        live.append("live %s %s" % (rs.choice(nofrag if not thorough else nofrag + ["600/9c", "300/3c", "0"]), fates))
+        live.append("live %s %s" % (cfg, fates))
     live = list(dict.fromkeys(live))
     # crash-resilient run: a schedule that kills the harness is reported and skipped
     lout = []
@@ -323,14 +418,13 @@ def run(ck):
     ncrash = 0
     while start < len(live):
         rc3, o3, e3 = ck.run_lines(h, live[start:])
-        o3 = [x for x in o3 if x.startswith("hs=") or x.startswith("SESSFAIL")]      # psAssert chatter of the library goes to stdout too
+        o3 = [x for x in o3 if x.startswith("hs=") or x in ("SESSFAIL", "PRIMEFAIL")]      # psAssert chatter of the library goes to stdout too
         lout += o3
         if len(o3) >= len(live) - start:
             break
         bad = live[start + len(o3)]
-        cfg = bad.split()[1]
         ncrash += 1
-        ck.spec_violation("live:crash:pmtu=%s:suite=%s" % (cfg.split("/")[0], cfg.split("/")[1] if "/" in cfg else "c02f"),
+        ck.spec_violation("live:crash:pmtu=%s:suite=%s:mode=%s" % parse_cfg(bad.split()[1]),
                           "the library faults (harness killed by signal %d) under delivery schedule: %s" % (-rc3, bad),
                           {"harness": "h_dtlswin", "case": bad, "observed": "exit %d %s" % (rc3, e3[-300:])})
         lout.append("CRASH")
@@ -347,9 +441,11 @@ def run(ck):
     ck.cov["live_schedules"] = len(lout)
     for k in (0, len(live) // 2, len(live) - 1):
         if k < len(lout): ck.sample({"live": live[k], "impl": lout[k]})
-    ck.rules.append("live: in-memory DTLS 1.2 client/server (suites 009c/003c/002f and the default c02f, PMTU default/600/300 forcing fragmentation); schedules = every placement of <= %d "
-                    "drop/duplicate/hold decisions among the first 10 datagrams without fragmentation, <= %d with fragmentation or the default suite, random schedules of length <= 14; every "
-                    "captured record replayed alone after every datagram position plus all captured records replayed together at every position" % (3 if thorough else 2, 2 if thorough else 1))
+    ck.rules.append("live: in-memory DTLS 1.2 client/server; handshake kinds full / client-authenticated (/a) / resumed (/r, after a clean priming handshake); suites 009c/003c/002f (RSA) and "
+                    "c02f (ECDHE_RSA, default); PMTU default/600/300 (fragmented Certificate / CertificateRequest); schedules = every placement of <= k drop/duplicate/hold decisions over all "
+                    "handshake datagram positions of the configuration (k per configuration: see `plan` in props/C16.py, %s), random schedules of length <= 14/20/30; every captured record "
+                    "replayed alone after every datagram position plus all captured records together at every position; PMTU 300 with c02f: no-fault schedule only (ServerKeyExchange "
+                    "cannot be fragmented)" % ("k = 2..3" if thorough else "k = 1..2"))
 
 
 def replay(ck, path):
